@@ -19,7 +19,7 @@ LEVEL_TEXT = ('Lean 4 theorems, for all input fields/offsets, samplings, tilt sh
               'du/oversample and the flipped plane type are carried. The integer/fractional split of the shift is derived: the model takes the real '
               'shift, splits it with trunc (np.fix) and fix_split_spec proves |sub| < 1, sub has the sign of the shift and fix+sub = shift, '
               'propagateField_sample_shift states the sample formula in terms of the shift itself, and propagateDft_sample_of_shifts / call_sample_of_shifts lift it to the whole '
-              'wavefront and to the call as written: the input is a list of (field, real shift), every window is centred at trunc(shift) — no free split parameter is left. The mask box is computed by the model from the mask '
+              'wavefront and to the call as written, without a mask and (call_mask_sample_of_shifts) with a mask of the output shape, where the sum is restricted to the bounding box of the mask\'s support: the input is a list of (field, real shift), every window is centred at trunc(shift) — no free split parameter is left. The mask box is computed by the model from the mask '
               'values with C20\'s boundary (mask_extent_is_support_bbox: it is the bounding box of the non-zero samples). Window arithmetic, '
               '_dft_alpha, its call site, shape·oversample, the metadata hand-over and every argument of the dft2 call and of the output Field are '
               'regenerated from propagate.py/extent.py/field.py on every run; lentil.util.boundary itself is NOT regenerated: it is the hand definition `boundary` of Model/Geometry.lean '
